@@ -68,6 +68,35 @@ def public_paths(docs):
     return out
 
 
+STD_PATHS = {"Box": "Box", "Rc": "std::rc::Rc", "Arc": "std::sync::Arc", "Option": "Option", "PhantomData": "core::marker::PhantomData",
+             "Vec": "Vec", "Cell": "core::cell::Cell", "MaybeUninit": "core::mem::MaybeUninit"}
+
+
+def render_ty(t, payload, pp):
+    """Rust syntax of an encoder term whose only leaf is the payload P (None if it cannot be named)."""
+    k = t[0]
+    if k == "leaf":
+        return payload if t[1] == "P" else None
+    if k == "ref":
+        inner = render_ty(t[2], payload, pp)
+        return None if inner is None else ("&'static mut " if t[1] else "&'static ") + inner
+    if k == "prim":
+        return t[1]
+    if k == "app":
+        args = [render_ty(a, payload, pp) for a in t[2]]
+        if any(a is None for a in args):
+            return None
+        if t[1] in STD_PATHS:
+            return STD_PATHS[t[1]] + ("<%s>" % ", ".join(args) if args else "")
+        info = pp.get(t[1])
+        if not info:
+            return None
+        path, nlt, ntp, _crate = info
+        gen = ["'static"] * nlt + args
+        return path + ("<%s>" % ", ".join(gen) if gen else "")
+    return None
+
+
 def run(facts, enc, table_rows, docs, work, evalf, CLASSES, PAYLOAD_TY, MARK_TY, wrapper_rows=()):
     pp = public_paths(docs)
     lines = [PRELUDE, "fn main() {\n"]
@@ -77,6 +106,11 @@ def run(facts, enc, table_rows, docs, work, evalf, CLASSES, PAYLOAD_TY, MARK_TY,
         head = r["head"]
         if kind == "leaf":
             tmpl = LEAF_TY.get(head)
+            # a leaf rule without a hand-written template (e.g. one Opaquable impl per pointer kind of a wrapper) is named
+            # from its own pattern; a rule of a known head whose pattern is NOT the plain `Head<P>` likewise
+            plain = conc[0] == "ref" or (conc[0] == "app" and all(a == ("leaf", "P") for a in conc[2]))
+            if not tmpl or not plain:
+                tmpl = render_ty(conc, "{P}", pp)
             if not tmpl:
                 continue
             for cls in CLASSES:
